@@ -495,6 +495,8 @@ pub fn run_c07(ctx: &mut Ctx) {
         Op::Response { tid: 1, from: 2, error: false, seal: RespSeal::OddLen(0, 0), fp: false },
         Op::SetRemote(2),
         Op::SetRemote(0),
+        // the agent's own (local) credentials never authenticate a response
+        Op::SetLocal(0),
     ];
     // remote credentials initially unset for half of the enumerated histories
     let mut gi = 0u64;
